@@ -122,6 +122,14 @@ func cmdCheck(args []string) int {
 	}
 	t0 := time.Now()
 	evPath := filepath.Join(verifDir(), "evidence", id+".json")
+	if d := os.Getenv("VERIF_EVIDENCE_DIR"); d != "" {
+		// experiments against seeded or historical trees must not overwrite the evidence of the unchanged tree
+		os.MkdirAll(d, 0o755)
+		evPath = filepath.Join(d, id+".json")
+	} else if os.Getenv("VERIF_REPO") != "" {
+		os.MkdirAll(filepath.Join(verifDir(), "out", "alt-evidence"), 0o755)
+		evPath = filepath.Join(verifDir(), "out", "alt-evidence", id+".json")
+	}
 	os.Remove(evPath)
 	ld, err := Load(p.Pkgs...)
 	if err != nil {
